@@ -1,0 +1,32 @@
+//go:build verif
+
+package table
+
+import "github.com/weedbox/pokerface/seat_manager"
+
+// Verification hooks (build tag verif): entry points that let a check drive the
+// glue between the seat manager and the hand engine (position hand-off, player
+// list of the next game, bankroll write-back) synchronously, without the table
+// loop's timers and goroutines.  They call the unexported functions unchanged.
+
+// VerifTable is what NewTable returns, seen through the hooks.
+type VerifTable interface {
+	Table
+	VerifSetupPosition() error
+	VerifPrepareNextGame() error
+	VerifSeatManager() *seat_manager.SeatManager
+	VerifInPosition() bool
+}
+
+// VerifNewTable is NewTable with the result typed by the hook interface.
+func VerifNewTable(options *Options, opts ...TableOpt) VerifTable {
+	return NewTable(options, opts...)
+}
+
+func (t *table) VerifSetupPosition() error { return t.setupPosition() }
+
+func (t *table) VerifPrepareNextGame() error { return t.prepareNextGame() }
+
+func (t *table) VerifSeatManager() *seat_manager.SeatManager { return t.sm }
+
+func (t *table) VerifInPosition() bool { return t.inPosition }
